@@ -18,17 +18,24 @@ RULE = ("random lattices (all-2 ranks 1-7, rank 8 all-2 = matmul path, runs of e
         "axis-parallel edges / outside the range (clip on only), plus points moved along one dimension; the Coq "
         "model evaluates the same points. Non-trivial = the case has a point that is not a vertex; distinct = "
         "distinct (config, kernel, points).")
-TRUSTED = ["model: Model/LatticeInterp.v + Model/Interp1D.v (hand-written from lattice_lib.py "
-           "evaluate_with_hypercube_interpolation / compute_interpolation_weights / batch_outer_operation / "
-           "evaluate_with_simplex_interpolation / _clip_onto_lattice_range and Lattice.call); the outer product "
-           "+ matmul of the hypercube path is modelled as the equivalent recursion over dimensions, the "
-           "bucketing of equal consecutive sizes as per-dimension weights (index-level meaning)",
+TRUSTED = ["model: Model/LatticeInterp.v + Model/Interp1D.v, hand-written from lattice_lib.py. Hypercube: "
+           "compute_interpolation_weights (2^d single-tensor special case [1-x, x] with optional clip of the "
+           "weights; general path clip-onto-range then 1 - min(|x - k|, 1)), batch_outer_operation as the literal "
+           "left-to-right row-major outer product, product with the kernel column. Simplex: clip, truncation to "
+           "the lower corner with the size-2 cap (skipped for 2^d), residuals, stable descending sort, padded "
+           "differences, cumsum of strides, gather incl. the indices*units+u arithmetic for units > 1. "
+           "Lattice.call dispatch. The bucketing of equal consecutive sizes, tf.split/unstack/reshape and "
+           "matmul-vs-multiply are represented by their index-level meaning (per-dimension weights)",
            "tie: Lattice layer built in float64 with assigned kernel, and direct lattice_lib calls, outputs "
-           "compared in Coq with relative tolerance 1e-9"]
+           "compared in Coq with relative tolerance 1e-9 (FUNCTIONAL: a disagreement is a failing input)"]
 LIMITS = ["unclipped out-of-range inputs are not generated (the property does not speak about them; the "
-          "simplex gather would index outside the kernel there)",
-          "float rounding (and the cast to int32 of huge inputs) is outside the model",
-          "input shape validation errors are not modelled (C16)"]
+          "simplex gather would index outside the kernel there); a mutation that makes the layer clip when "
+          "clip_inputs is off is therefore invisible",
+          "float rounding (and the cast to int32 of huge or non-finite inputs) is outside the model",
+          "input shape validation errors and rank-0 lattices are not modelled (C16)",
+          "lattices are kept to <= 256 vertices, so rank >= 9 (a second matmul step) is not exercised",
+          "simplex continuity across cell faces is proved one face at a time (C02_simplex_continuous); crossing "
+          "several faces at once is the composition of such steps and is not stated as one theorem"]
 
 TOL = 1e-9
 
@@ -147,7 +154,7 @@ def _gen_point(rng, sizes, clip, pclass):
 def gen_descs(ctx):
   rng = ctx.rng
   out = []
-  for _ in range(ctx.n(130, 4000)):
+  for _ in range(ctx.n(320, 20000)):
     sclass, sizes = _gen_sizes(rng)
     rank = len(sizes)
     units = rng.choice([1, 1, 2, 3])
